@@ -131,7 +131,7 @@ def gen_cases(tier, seed):
 
 def required(tier):
     return {"conv.pairs_roundtrip": 50000, "conv.class.empty": 9, "conv.padding": 40, "conv.main_runs": 150, "prec.configs": 2000,
-            "prec.pairs_observed": 50, "prec.class.flag_over_file": 400, "prec.class.toml_over_json": 150, "prec.class.file_over_default": 300,
+            "prec.pairs_observed": 50, "prec.class.flag_over_file": 400, "prec.class.empty_flag_over_file": 40, "prec.class.toml_over_json": 150, "prec.class.file_over_default": 300,
             "prec.class.redeclared_-0_subcommands": 30, "unknown.configs": 10, "parser.subcommands": 15}
 
 
@@ -432,7 +432,8 @@ def _precedence(ctx, params, kind):
             ctx.count("prec.pairs_observed")
         d = tempfile.mkdtemp(prefix="c20-")
         try:
-            for flag_val in ([None, a] if has_flag else [None]):
+            # explicit values that are FALSY (the empty string, legal for the rpc_* options) are explicit all the same
+            for flag_val in (([None, a] + ([""] if opt.startswith("rpc_") and rot == 0 else [])) if has_flag else [None]):
                 for js in (None, {}, {opt: b}):
                     for ts in (None, {}, {opt: c}):
                         if kind == "unknown_keys" and js is None and ts is None:
@@ -448,6 +449,8 @@ def _precedence(ctx, params, kind):
                         ctx.seen("prec", canon([sub, opt, flag_val, js, ts, kind]))
                         if flag_val is not None and (js or ts):
                             ctx.count("prec.class.flag_over_file")
+                        if flag_val == "" and (js or ts):
+                            ctx.count("prec.class.empty_flag_over_file")
                         if flag_val is None and ts and js:
                             ctx.count("prec.class.toml_over_json")
                         if flag_val is None and layer == "file":
